@@ -286,7 +286,7 @@ def fact_order_Program_ReleaseTerminal : List String := [
 def fact_order_Program_RestoreTerminal : List String := [
     "atomic.StoreUint32(&p.ignoreSignals,0)",
     "p.initTerminal",
-    "p.initCancelReader(false)",
+    "[p.input != nil]p.initCancelReader(false)",
     "[p.altScreenWasActive]p.renderer.enterAltScreen",
     "[!p.altScreenWasActive]p.Send",
     "[p.renderer != nil]p.renderer.start",
@@ -397,7 +397,8 @@ def fact_order_standardRenderer_stop : List String := [
     "r.mtx.Lock",
     "r.mtx.Unlock",
     "r.execute(ansi.EraseEntireLine)",
-    "r.execute(\"\\r\")"]
+    "r.execute(\"\\r\")",
+    "r.repaint"]
 
 def fact_recvs : List String := [
     "Every|t.C|bare|go=false",
@@ -428,6 +429,22 @@ def fact_recvs : List String := [
     "standardRenderer.listen|r.done|select|go=false",
     "standardRenderer.listen|r.ticker.C|select|go=false",
     "suspendProcess|c|bare|go=false"]
+
+def fact_sendcalls : List String := [
+    "Program.Printf|printLineMessage{ messageBody: fmt.Sprintf(template, args...), }|go=false",
+    "Program.Println|printLineMessage{ messageBody: fmt.Sprint(args...), }|go=false",
+    "Program.Quit|Quit()|go=false",
+    "Program.RestoreTerminal|repaintMsg{}|go=true",
+    "Program.checkResize|WindowSizeMsg{ Width: w, Height: h, }|go=false",
+    "Program.eventLoop|cmd()|go=true",
+    "Program.eventLoop|msg|go=true",
+    "Program.exec|fn(err)|go=true",
+    "Program.exec|fn(err)|go=true",
+    "Program.exec|fn(err)|go=true",
+    "Program.handleCommands|msg|go=true",
+    "Program.handleSignals|InterruptMsg{}|go=true",
+    "Program.handleSignals|QuitMsg{}|go=true",
+    "Program.suspend|ResumeMsg{}|go=true"]
 
 def fact_sends : List String := [
     "Program.Run|cmds|select+done|go=true",
